@@ -119,6 +119,98 @@ def make_models(clock: Clock):
             cases.append((none_so_far, NONE))
         return cases
 
+    def _elem_ref(dqref, i, dq):
+        if dqref[0] == "ref":
+            _, (kind, fid, local, proj) = dqref
+            return ("ref", (kind, fid, local, tuple(proj) + (("cindex", i, False),)))
+        return ("refval", dq.items[i])
+
+    def m_find(ex, st, args, dest_ty, fname):
+        """Iterator::find over a deque iterator: first element whose predicate holds (as a reference to the element)."""
+        it = ex.deref(args[0], st)
+        clos = args[1]
+        dq = ex.deref(it.dq, st)
+        f = ex.closure_function(clos[1])
+        cases = []
+        none_so_far = True
+        for i in range(it.pos, len(dq.items)):
+            eref = _elem_ref(it.dq, i, dq)
+            val, pan = ex.call_value(st, f, [("refval", clos), ("refval", eref)])
+            if pan is not False:
+                cases.append((b_and(none_so_far, pan), Panic("panic inside find() predicate")))
+            hit = b_and(none_so_far, val)
+            if hit is not False:
+                cases.append((hit, some(eref)))
+            none_so_far = b_and(none_so_far, b_not(val))
+            if none_so_far is False:
+                break
+        if none_so_far is not False:
+            cases.append((none_so_far, NONE))
+        return cases
+
+    def _call_closure(ex, st, clos, argvals):
+        f = ex.closure_function(clos[1])
+        # closures are compiled with the arguments spread: (closure, arg0, arg1, ...)
+        return ex.call_value(st, f, [clos] + list(argvals))
+
+    def m_opt_map_or(ex, st, args, dest_ty, fname):
+        o, default, clos = args
+        if o[1] == "None":
+            return default
+        val, pan = _call_closure(ex, st, clos, [o[2][0]])
+        if pan is not False:
+            return [(pan, Panic("panic inside map_or closure")), (b_not(pan), val)]
+        return val
+
+    def m_opt_map(ex, st, args, dest_ty, fname):
+        o, clos = args
+        if o[1] == "None":
+            return NONE
+        val, pan = _call_closure(ex, st, clos, [o[2][0]])
+        if pan is not False:
+            return [(pan, Panic("panic inside map closure")), (b_not(pan), some(val))]
+        return some(val)
+
+    def m_opt_and_then(ex, st, args, dest_ty, fname):
+        o, clos = args
+        if o[1] == "None":
+            return NONE
+        # the closure may mutate captured state (e.g. remove from the deque): inline it with heap effects
+        f = ex.closure_function(clos[1])
+        ensure_parsed(f)
+        heap = ex.copy_heap(st.heap)
+        heap[st.frame] = dict(st.locals)
+        sub = ex.run_function(f, [clos, o[2][0]], heap=heap, pc=st.pc)
+        out = []
+        for c, v, l, h in sub.rets:
+            out.append((c, v, h))
+        for c, m in sub.panics:
+            out.append((c, Panic(m), None))
+        return ("__with_heap__", out)
+
+    def m_opt_unwrap_or(ex, st, args, dest_ty, fname):
+        o, default = args
+        return o[2][0] if o[1] == "Some" else default
+
+    def m_iter_mut(ex, st, args, dest_ty, fname):
+        return DequeIter(args[0], 0)
+
+    def m_deque_get(ex, st, args, dest_ty, fname):
+        dq = ex.deref(args[0], st)
+        i = args[1]
+        if is_sym(i):
+            raise ExecError("symbolic VecDeque::get index")
+        if 0 <= i < len(dq.items):
+            return some(_elem_ref(args[0], i, dq))
+        return NONE
+
+    def m_deque_front(ex, st, args, dest_ty, fname):
+        dq = ex.deref(args[0], st)
+        return some(_elem_ref(args[0], 0, dq)) if dq.items else NONE
+
+    def m_deque_is_empty(ex, st, args, dest_ty, fname):
+        return len(ex.deref(args[0], st).items) == 0
+
     def m_index(ex, st, args, dest_ty, fname):
         dqref, idx = args[0], args[1]
         dq = ex.deref(dqref, st)
@@ -187,7 +279,16 @@ def make_models(clock: Clock):
         M(r"^Duration::as_secs$", m_as_secs),
         M(r"^VecDeque::<CachedItem>::iter$", m_iter),
         M(r"^<std::collections::vec_deque::Iter<'_, CachedItem> as Iterator>::position::<", m_position),
-        M(r"^<VecDeque<CachedItem> as Index<usize>>::index$", m_index),
+        M(r"^<std::collections::vec_deque::Iter(Mut)?<'_, CachedItem> as Iterator>::find::<", m_find),
+        M(r"^VecDeque::<CachedItem>::iter_mut$", m_iter_mut),
+        M(r"^VecDeque::<CachedItem>::get(_mut)?$", m_deque_get),
+        M(r"^VecDeque::<CachedItem>::front(_mut)?$", m_deque_front),
+        M(r"^VecDeque::<CachedItem>::is_empty$", m_deque_is_empty),
+        M(r"^Option::<.*>::map_or::<", m_opt_map_or),
+        M(r"^Option::<.*>::map::<", m_opt_map),
+        M(r"^Option::<.*>::and_then::<", m_opt_and_then),
+        M(r"^Option::<.*>::unwrap_or$", m_opt_unwrap_or),
+        M(r"^<VecDeque<CachedItem> as Index(Mut)?<usize>>::index(_mut)?$", m_index),
         M(r"^VecDeque::<CachedItem>::pop_front$", m_pop_front),
         M(r"^VecDeque::<CachedItem>::remove$", m_remove),
         M(r"^VecDeque::<CachedItem>::push_back$", m_push_back),
